@@ -280,9 +280,10 @@ pub fn run(ctx: &mut Ctx) {
     if !ctx.violations.is_empty() {
         return;
     }
-    if !ctx.quick() {
-        crate::fuzzrun::campaign(ctx, "c02_append_only", fuzz_case, 300_000);
+    if !ctx.quick() && !crate::fuzzrun::campaign(ctx, "c02_append_only", fuzz_case, 300_000) {
+        return;
     }
+    e2_leg(ctx);
 }
 
 pub fn replay(ctx: &mut Ctx, v: &Value) {
@@ -293,4 +294,57 @@ pub fn replay(ctx: &mut Ctx, v: &Value) {
         Err(e) if e.starts_with("HARNESS") => crate::ev::inconclusive(&e),
         Err(e) => ctx.violation(&e, v),
     }
+}
+
+// ---------- E2 leg: the same comparator on recorder triples of real rustc expansions ----------
+
+fn record_mode(input: &[Tok]) -> Option<&'static str> {
+    let mut i = 0;
+    while i < input.len() {
+        match &input[i] {
+            Tok::Punct('#') => i += 2,
+            Tok::Ident(k) if k == "mod" => return Some("mod"),
+            Tok::Ident(k) if k == "impl" => return Some("impl"),
+            Tok::Ident(k) if k == "trait" => return None,
+            Tok::Ident(k) if k == "fn" => return Some("fn"),
+            _ => i += 1,
+        }
+    }
+    None
+}
+
+pub fn e2_leg(ctx: &mut Ctx) -> bool {
+    use crate::e2::{Batch, Opts};
+    let n = ctx.n(250, 3000) as usize;
+    let mut batch = Batch::new("c02-e2", Opts { feature_unimock: false, members: 16, check_only: true, ..Default::default() });
+    for (i, tp) in crate::drive::gen_tapes(ctx.seed, 201, n, super::c01::TAPE_LEN).iter().enumerate() {
+        batch.add(&format!("a{i:05}"), super::c01::gen_case(&mut Tape::new(tp), false).src);
+    }
+    for (i, tp) in crate::drive::gen_tapes(ctx.seed, 202, n / 2, super::c07::TAPE_LEN).iter().enumerate() {
+        batch.add(&format!("b{i:05}"), super::c07::gen_case(&mut Tape::new(tp)).src);
+    }
+    let out = batch.build_and_run();
+    batch.cleanup();
+    super::common::crosscheck_records(ctx, &out.records);
+    let mut by_mode = std::collections::BTreeMap::new();
+    for r in &out.records {
+        let (Some(output), Some(mode)) = (&r.output, record_mode(&r.input)) else { continue };
+        if crate::tok::find_compile_error(output).is_some() {
+            continue;
+        }
+        ctx.count_eval();
+        if let Err(e) = check_tokens(mode, &r.input, output) {
+            if e.starts_with("HARNESS") {
+                continue;
+            }
+            ctx.violation(
+                &format!("{e} (recorded expansion of a real rustc build)"),
+                &json!({"engine": "E1", "mode": mode, "macro": r.macro_name, "attr": crate::tok::render(&r.attr), "item": crate::tok::render(&r.input)}),
+            );
+            return false;
+        }
+        *by_mode.entry(mode).or_insert(0u64) += 1;
+    }
+    ctx.extra.insert("e2_recorded_expansions_compared".into(), json!(by_mode));
+    true
 }
